@@ -405,6 +405,13 @@ def r8(ctx):
     ctx.floor("C12.R8", 5)
 
 
+def r9(ctx):
+    """a refused drop of the document leaves its subscribers subscribed (the API handler `doc_drop` evaluated; reports F29)"""
+    from . import apifw
+    apifw.check_refused_drop_keeps_subscribers(ctx, "C12.R9")
+    ctx.floor("C12.R9", 2)
+
+
 def run(ctx):
     ctx.run_rule("C12.R1", r1)
     ctx.run_rule("C12.R2", r2)
@@ -414,3 +421,4 @@ def run(ctx):
     ctx.run_rule("C12.R6", r6)
     ctx.run_rule("C12.R7", r7)
     ctx.run_rule("C12.R8", r8)
+    ctx.run_rule("C12.R9", r9)
